@@ -1,6 +1,25 @@
 package dissect
 
-import "unicode"
+// lowerByte lowers A-Z. Bytes >= 0x80 are parts of multi-byte UTF-8
+// sequences (or arbitrary binary) and must be compared as they are: treating
+// a single byte as a rune (unicode.ToLower(rune(b))) maps 0xC3 to 0xE3, so a
+// literal with a 2-byte character never matched, even identical text
+func lowerByte(b byte) byte {
+	if 'A' <= b && b <= 'Z' {
+		return b + ('a' - 'A')
+	}
+	return b
+}
+
+// lowerASCII lowers A-Z in s and leaves every other byte as-is,
+// consistent with how indexIgnoreCase folds the searched text
+func lowerASCII(s string) string {
+	b := []byte(s)
+	for i := range b {
+		b[i] = lowerByte(b[i])
+	}
+	return string(b)
+}
 
 // Finds case-insensitive index of second string
 // ASSUMES second string is already lowered (optimization)
@@ -13,7 +32,7 @@ func indexIgnoreCase(s, loweredSubstr string) int {
 		return -1
 	case len(s) == n:
 		for i := 0; i < n; i++ {
-			if unicode.ToLower(rune(s[i])) != rune(loweredSubstr[i]) {
+			if lowerByte(s[i]) != loweredSubstr[i] {
 				return -1
 			}
 		}
@@ -22,7 +41,7 @@ func indexIgnoreCase(s, loweredSubstr string) int {
 		for i := 0; i <= len(s)-n; i++ {
 			match := true
 			for j := 0; j < n; j++ {
-				if unicode.ToLower(rune(s[i+j])) != rune(loweredSubstr[j]) {
+				if lowerByte(s[i+j]) != loweredSubstr[j] {
 					match = false
 					break
 				}
